@@ -396,13 +396,21 @@ def r5_destinations(cx, mods, classes):
                 mode = n.args[1] if len(n.args) > 1 else kwarg(n, "mode")
                 mv = const_str(mode) if mode is not None else "r"
                 creates = mv is None or any(ch in mv for ch in "wax+")
-            elif cn in ("fs.ensure_path", "os.makedirs", "os.mkdir", "shutil.copy", "shutil.copyfile", "shutil.move", "os.rename", "os.symlink", "os.link"):
+            elif cn in ("fs.ensure_path", "os.makedirs", "os.mkdir", "shutil.copy", "shutil.copy2", "shutil.copyfile", "shutil.move", "os.rename", "os.replace", "os.symlink", "os.link",
+                        "tempfile.NamedTemporaryFile", "tempfile.TemporaryFile", "tempfile.mkstemp", "tempfile.mkdtemp", "tempfile.SpooledTemporaryFile", "NamedTemporaryFile", "mkstemp", "mkdtemp"):
                 creates = True
             elif cn == "call" and n.args and "cp" in U(n.args[0]):
                 creates = True
             if creates:
                 fn = enclosing_function(n)
                 q = getattr(fn, "_qual", "<module>")
+                if (mn, q) in allowed and q.endswith(".write"):
+                    # inside the two writers every created path must derive from the destination parameter
+                    dstp = params(fn)[1]
+                    names = set(x.id for a in list(n.args) + [k.value for k in n.keywords] for x in ast.walk(a) if isinstance(x, ast.Name))
+                    cx.require(dstp in names, n, "%s creates files only at (or beneath the directory of) the destination it was given; a scratch file elsewhere (e.g. the system temp directory) leaves collected content outside the archive when a fault hits before the move" % q,
+                               construct="%s in %s" % (short(n, 90), q))
+                    continue
                 cx.require((mn, q) in allowed, n, "files are created only by ContentProvider.write, RawFileProvider.write and Hydration.dehydrate, each under the root it was given",
                            construct="%s in %s" % (short(n, 80), q))
     # DatasourceProvider call sites: literal save_as must be relative (INFO sweep)
